@@ -7,7 +7,7 @@
 From DV Require Import Base.Prelude Model.NameM Model.SchemaM.
 Open Scope Z_scope.
 
-Inductive hid := HHip | HIpseckey | HAmtrelay | HApl | HSvcb | HLoc.
+Inductive hid := HHip | HIpseckey | HAmtrelay | HApl | HSvcb | HLoc | HOpt.
 
 Definition get_u (wire : list Z) (endp cur w : nat) : res (Z * nat) :=
   do bc <- get_bytes wire endp cur w; Ok (be_decode (fst bc), snd bc).
@@ -437,10 +437,167 @@ Definition loc_enc (o : option name) (vs : list val) : res (list Z) :=
   | _ => Internal eBadCase
   end.
 
+(* ------------------------------------------------------------------ OPT / EDNS options *)
+(* dns/rdtypes/ANY/OPT.py + dns/edns.py.  Value: [VL [[VI otype; VB payload]...]] where payload is
+   the option's own to_wire() (the harness reads it back like that), i.e. the NORMALISED option
+   data: ECS address bits beyond the source prefix cleared, one trailing NUL of EDE text dropped,
+   a REPORTCHANNEL name uncompressed. *)
+
+Definition cont (b : Z) : bool := (128 <=? b) && (b <=? 191).
+
+(* bytes.decode("utf8"), strict: shortest form, no surrogates, at most U+10FFFF *)
+Fixpoint utf8_ok (fuel : nat) (b : list Z) : bool :=
+  match fuel with
+  | O => match b with [] => true | _ => false end
+  | S f =>
+      match b with
+      | [] => true
+      | b0 :: r =>
+          if (0 <=? b0) && (b0 <? 128) then utf8_ok f r
+          else if (194 <=? b0) && (b0 <=? 223) then
+            match r with b1 :: r1 => cont b1 && utf8_ok f r1 | _ => false end
+          else if (224 <=? b0) && (b0 <=? 239) then
+            match r with
+            | b1 :: b2 :: r2 =>
+                cont b1 && cont b2
+                && (negb (b0 =? 224) || (160 <=? b1))
+                && (negb (b0 =? 237) || (b1 <=? 159))
+                && utf8_ok f r2
+            | _ => false
+            end
+          else if (240 <=? b0) && (b0 <=? 244) then
+            match r with
+            | b1 :: b2 :: b3 :: r3 =>
+                cont b1 && cont b2 && cont b3
+                && (negb (b0 =? 240) || (144 <=? b1))
+                && (negb (b0 =? 244) || (b1 <=? 143))
+                && utf8_ok f r3
+            | _ => false
+            end
+          else false
+      end
+  end.
+
+Definition utf8 (b : list Z) : bool := utf8_ok (length b) b.
+
+(* clear the low (8 - nbits) bits of an octet:  x & (0xFF << (8 - nbits)) *)
+Definition mask_bits (x nbits : Z) : Z := x / 2 ^ (8 - nbits) * 2 ^ (8 - nbits).
+
+Definition mask_last (addr : list Z) (nbits : Z) : list Z :=
+  if nbits =? 0 then addr
+  else match rev addr with
+       | [] => []
+       | l :: r => rev (mask_bits l nbits :: r)
+       end.
+
+(* one option: acceptance and normalised payload, given its octets `d` (ECS, EDE, NSID, COOKIE,
+   the text options, generic).  REPORTCHANNEL needs the message (name) and is handled apart. *)
+Definition opt_norm (ot : Z) (d : list Z) : option (list Z) :=
+  if ot =? 8 then
+    match d with
+    | f1 :: f2 :: src :: scope :: addr =>
+        let fam := f1 * 256 + f2 in
+        let alen := (src + 7) / 8 in
+        let full := if fam =? 1 then 4 else 16 in
+        if ((fam =? 1) || (fam =? 2)) && (zlen addr =? alen) && (alen <=? full)
+           && (src <=? 8 * full) && (scope <=? 8 * full)
+        then Some (f1 :: f2 :: src :: scope :: mask_last addr (src mod 8))
+        else None
+    | _ => None
+    end
+  else if ot =? 15 then
+    match d with
+    | c1 :: c2 :: text =>
+        let text' := match rev text with 0 :: r => rev r | _ => text end in
+        if utf8 text' then Some (c1 :: c2 :: text') else None
+    | _ => None
+    end
+  else if ot =? 10 then
+    let n := zlen d in
+    if (n =? 8) || ((16 <=? n) && (n <=? 40)) then Some d else None
+  else if (22 <=? ot) && (ot <=? 25) then (if utf8 d then Some d else None)
+  else Some d.
+
+Fixpoint opt_items_dec (fuel : nat) (wire : list Z) (endp cur : nat) : res (list (list sval) * nat) :=
+  if Nat.leb endp cur then Ok ([], cur)
+  else
+    match fuel with
+    | O => Internal iFuel
+    | S fuel' =>
+        do ot <- get_u wire endp cur 2;
+        do ol <- get_u wire endp (snd ot) 2;
+        (* restrict_to(olen) *)
+        if Nat.ltb (endp - snd ol) (Z.to_nat (fst ol)) then Lib eFormError
+        else
+          let oend := (snd ol + Z.to_nat (fst ol))%nat in
+          do payload <-
+            (if fst ot =? 18 then
+               (* ReportChannelOption: parser.get_name(), must fill the option exactly *)
+               match get_name wire None false oend (snd ol) with
+               | Ok (n, c) => if Nat.eqb c oend then Ok (wire_labels false n) else Lib eFormError
+               | Lib e => Lib e
+               | Internal e => Internal e
+               end
+             else
+               do d <- get_bytes wire oend (snd ol) (Z.to_nat (fst ol));
+               match opt_norm (fst ot) (fst d) with
+               | Some p => Ok p
+               | None => Lib eFormError
+               end);
+          do rest <- opt_items_dec fuel' wire endp oend;
+          Ok ([VI (fst ot); VB payload] :: fst rest, snd rest)
+    end.
+
+Definition opt_dec (wire : list Z) (o : option name) (endp cur : nat) : res (list val * nat) :=
+  do ic <- opt_items_dec (S (endp - cur)) wire endp cur; Ok ([VL (fst ic)], snd ic).
+
+(* a payload in normal form (what the option classes hold and re-emit) *)
+Definition opt_payload_ok (ot : Z) (p : list Z) : bool :=
+  if ot =? 18 then
+    match NameM.from_wire p 0 with
+    | Ok (n, c) => Nat.eqb c (length p) && zlist_eqb (wire_labels false n) p
+    | _ => false
+    end
+  else match opt_norm ot p with
+       | Some q => zlist_eqb q p
+       | None => false
+       end.
+
+Definition opt_row_ok (r : list sval) : bool :=
+  match r with
+  | [VI ot; VB p] => (0 <=? ot) && (ot <=? 65535) && opt_payload_ok ot p
+  | _ => false
+  end.
+
+Definition opt_valid (vs : list val) : bool :=
+  match vs with
+  | [VL items] => forallb opt_row_ok items
+  | _ => false
+  end.
+
+Fixpoint opt_items_enc (items : list (list sval)) : res (list Z) :=
+  match items with
+  | [] => Ok []
+  | [VI ot; VB p] :: r =>
+      if (0 <=? ot) && (ot <? 65536) && (zlen p <? 65536) then
+        do rest <- opt_items_enc r;
+        Ok (be_encode 2 ot ++ be_encode 2 (zlen p) ++ p ++ rest)
+      else Internal iStructError
+  | _ => Internal eBadCase
+  end.
+
+Definition opt_enc (o : option name) (vs : list val) : res (list Z) :=
+  match vs with
+  | [VL items] => opt_items_enc items
+  | _ => Internal eBadCase
+  end.
+
+Definition opt_shape : list fld := [FRepeat false false [FU 2 65535; FCounted 2 0 65535]].
+
 (* ------------------------------------------------------------------ dispatch *)
-Definition hand_dec (h : hid) := match h with HHip => hip_dec | HIpseckey => ipseckey_dec | HAmtrelay => amtrelay_dec | HApl => apl_dec | HSvcb => svcb_dec | HLoc => loc_dec end.
-Definition hand_valid (h : hid) := match h with HHip => hip_valid | HIpseckey => ipseckey_valid | HAmtrelay => amtrelay_valid | HApl => apl_valid | HSvcb => svcb_valid | HLoc => loc_valid end.
-Definition hand_enc (h : hid) := match h with HHip => hip_enc | HIpseckey => ipseckey_enc | HAmtrelay => amtrelay_enc | HApl => apl_enc | HSvcb => svcb_enc | HLoc => loc_enc end.
+Definition hand_dec (h : hid) := match h with HHip => hip_dec | HIpseckey => ipseckey_dec | HAmtrelay => amtrelay_dec | HApl => apl_dec | HSvcb => svcb_dec | HLoc => loc_dec | HOpt => opt_dec end.
+Definition hand_valid (h : hid) := match h with HHip => hip_valid | HIpseckey => ipseckey_valid | HAmtrelay => amtrelay_valid | HApl => apl_valid | HSvcb => svcb_valid | HLoc => loc_valid | HOpt => opt_valid end.
+Definition hand_enc (h : hid) := match h with HHip => hip_enc | HIpseckey => ipseckey_enc | HAmtrelay => amtrelay_enc | HApl => apl_enc | HSvcb => svcb_enc | HLoc => loc_enc | HOpt => opt_enc end.
 
 (* dns.rdata.from_wire for a hand-modelled class (same frame as SchemaM.decode_rdata) *)
 Definition hand_decode_rdata (h : hid) (origin : option name) (wire : list Z) (cur rdlen : nat)
@@ -478,6 +635,7 @@ Definition hand_vals_of_obs (h : hid) (os : list obs) : option (list val) :=
   | HHip => vals_of_obs hip_shape os
   | HApl => vals_of_obs apl_shape os
   | HSvcb => vals_of_obs svcb_shape os
+  | HOpt => vals_of_obs opt_shape os
   | HLoc =>
       match os with
       | [L [I d; I m; I s; I ms; I sg]; L [I d2; I m2; I s2; I ms2; I sg2]; I alt; I sz; I hp; I vp] =>
